@@ -59,6 +59,16 @@ CHECKS = {
         ref="DESIGN.md 6/C09",
         note=NOTE + "the model of tria_mesh.py's connectivity code is hand-written and tied by exact differential comparison only.",
         technique="Lean 4 proof (counting lemmas, induction over the triangle list, cycle argument for the loop walk) tied by exact differential driver"),
+    "C05": dict(
+        text="Theorems about the model of Solver.poisson, for every matrix pair, index set and data and for EVERY external solver that "
+             "satisfies the reduced system it is handed: the result takes exactly the prescribed values at Dirichlet vertices "
+             "(dirichlet_exact) and satisfies (A x)_i = (B(h-n))_i at every other vertex (interior_eq / run_spec); the right-hand side is "
+             "linear in (h, Neumann, Dirichlet data). The matrices are those of C01/C02 (bridged). The reduced matrix and right-hand "
+             "side actually handed to SuperLU and the re-insertion are captured in-process and compared with the model; the solve "
+             "contract is monitored (residual).",
+        ref="DESIGN.md 6/C05",
+        note=NOTE + "SuperLU's exact solve of the nonsingular reduced system is assumed (monitored); uniqueness/affine reproduction are evaluated by the search oracle, the balanced-vertex theorem is in progress.",
+        technique="Lean 4 proof (induction over the triplet list, relative to the solve contract) tied by captured-argument comparison and differential driver"),
 }
 
 NOT_YET = {}
